@@ -209,9 +209,24 @@ pub fn evaluate(tree: &T, info: &Info, prof: &Profile, exhaustive_limit: u64) ->
     })
 }
 
-/// max(1, max |payoff|)
+/// Magnitude of the game: the chance-expectation of the largest |payoff| the players can steer to.
+/// Every utility, best-response value and regret is bounded by it, and every one of them is a sum
+/// of terms of at most this size, so it is the yardstick for rounding error. (It used to be
+/// max(1, max |payoff|), which is an absolute tolerance for games with tiny payoffs and a
+/// uselessly loose one when a huge payoff sits behind a tiny chance probability.)
+pub fn magnitude(tree: &T) -> f64 {
+    match tree {
+        T::Term(p) => p.abs(),
+        T::Chance(_, outs) => {
+            let total: f64 = outs.iter().map(|(w, _)| *w).sum();
+            outs.iter().map(|(w, t)| w / total * magnitude(t)).sum()
+        }
+        T::Player(_, _, acts) => acts.iter().map(|(_, t)| magnitude(t)).fold(0.0, f64::max),
+    }
+}
+
 pub fn scale_of(tree: &T) -> f64 {
-    tree.payoffs().into_iter().fold(1.0, |acc, p| f64::max(acc, p.abs()))
+    magnitude(tree).max(f64::MIN_POSITIVE)
 }
 
 /// payoff range over all leaves
